@@ -157,6 +157,72 @@ def check_equality_routines(ctx: Ctx, rr: RuleResult) -> None:
                            construct=short(n))
 
 
+_KIND_CLASSES = {
+    "null": set(), "boolean": {"bool", "int"}, "number": {"int", "float", "Decimal", "Number", "Real"},
+    "string": {"str", "Sequence"}, "array": {"Sequence", "list", "MutableSequence"}, "object": {"Mapping", "dict", "MutableMapping"},
+}
+
+
+def check_equality_kind_table(ctx: Ctx, rr: RuleResult) -> None:
+    """Values of different JSON kinds are never equal.  The deep-equality routine is partially evaluated for every
+    ordered pair of different kinds (isinstance tests decided by the kinds; a str is a Sequence, a bool is an int):
+    every way out must be `return False`, or Python `==` of the two operands where that is safe (no boolean against
+    a number - Python has 1 == True - and not two containers)."""
+    from sa.peval import Explorer
+
+    for fn in equality_routines(ctx):
+        params = [a.arg for a in fn.node.args.args if a.arg not in ("self", "cls")]
+        if len(params) < 2:  # noqa: PLR2004
+            continue
+        left, right = params[0], params[1]
+        for k1 in _KIND_CLASSES:
+            for k2 in _KIND_CLASSES:
+                if k1 == k2:
+                    continue
+
+                def oracle(t: ast.expr, env: dict, k1: str = k1, k2: str = k2) -> Optional[bool]:  # type: ignore[type-arg]
+                    ic = isinstance_classes(t)
+                    if ic is not None and ic[0] in (left, right):
+                        kind = k1 if ic[0] == left else k2
+                        known = set().union(*_KIND_CLASSES.values())
+                        if not set(ic[1]) <= known:
+                            return None
+                        return bool(set(ic[1]) & _KIND_CLASSES[kind])
+                    if isinstance(t, ast.Compare) and len(t.ops) == 1 and isinstance(t.ops[0], (ast.Is, ast.IsNot)) and isinstance(
+                            t.comparators[0], ast.Constant) and t.comparators[0].value is None and path_of(t.left) in (left, right):
+                        kind = k1 if path_of(t.left) == left else k2
+                        return (kind == "null") == isinstance(t.ops[0], ast.Is)
+                    return None
+
+                ex = Explorer(ctx.folder, fn, oracle, enter_loops=True)
+                outs = ex.run({})
+                bad_out = None
+                for k, n, v in outs:
+                    if k == "raise":
+                        continue
+                    if k == "return" and isinstance(n, ast.Return):
+                        rv = n.value
+                        if v is False or (isinstance(rv, ast.Constant) and rv.value is False):
+                            continue
+                        py_eq = (isinstance(rv, ast.Compare) and len(rv.ops) == 1 and isinstance(rv.ops[0], ast.Eq)
+                                 and {path_of(rv.left), path_of(rv.comparators[0])} == {left, right})
+                        containers = {k1, k2} <= {"array", "object"}
+                        bool_num = {k1, k2} == {"boolean", "number"}
+                        if py_eq and not containers and not bool_num:
+                            continue
+                    bad_out = (k, n, v)
+                    break
+                if bad_out is None:
+                    rr.ok(fn.loc(), f"{fn.qualname}: {k1} against {k2} is never equal")
+                else:
+                    k, n, v = bad_out
+                    shown = short(n) if n is not None else "the end of the function"
+                    rr.bad(fn, n if n is not None else fn.node, f"{fn.qualname}: with a {k1} on the left and a {k2} on the right the routine can "
+                           f"leave through `{shown}`: values of different JSON kinds must compare unequal "
+                           + ("(an array would equal the string made of its one-character items)" if {k1, k2} == {"array", "string"} else ""),
+                           construct=f"{fn.name}: {k1} vs {k2} -> {shown}")
+
+
 def r2_1(ctx: Ctx) -> RuleResult:
     rr = RuleResult("R2.1", "comparison kind discipline", floor=3)
     for fn in comparison_functions(ctx):
@@ -203,6 +269,7 @@ def r2_1(ctx: Ctx) -> RuleResult:
                 else:
                     rr.ok(fn.loc(node), f"{fn.qualname}: `{short(node)}` with {sorted(lk)} / {sorted(rk)}")
     check_equality_routines(ctx, rr)
+    check_equality_kind_table(ctx, rr)
     # (c) Nothing equals only Nothing
     und = ctx.repo.get_class("jsonpath.filter._Undefined")
     if und is None or "__eq__" not in und.methods:
